@@ -233,3 +233,142 @@ def _exact(w):
     if isinstance(w, bool):
         return Fraction(int(w))
     return Fraction(w)
+
+
+# ---------------------------------------------------------------------------------------------
+# reading a colour rendering back
+# ---------------------------------------------------------------------------------------------
+STRIKE, UNDERPLUS = "̶", "̟"
+
+
+class RenderError(Exception):
+    pass
+
+
+def ansi_decode(text):
+    """SGR state machine + combining-mark reader.
+    Returns a list of (char, cls, is_separator) with cls in {'common','removed','inserted'}.
+    A character is removed if the background is red or it carries U+0336, inserted if the background is green
+    or it carries U+031F; conflicting signals raise RenderError.  Text written in cyan foreground on the default
+    background is the ' -> ' separator of a replacement."""
+    out = []
+    fg, bg = None, None
+    i, n = 0, len(text)
+    while i < n:
+        ch = text[i]
+        if ch == "\x1b":
+            if i + 1 < n and text[i + 1] == "[":
+                j = i + 2
+                while j < n and (text[j].isdigit() or text[j] == ";"):
+                    j += 1
+                if j < n and text[j] == "m":
+                    codes = [c for c in text[i + 2:j].split(";") if c != ""] or ["0"]
+                    for c in codes:
+                        c = int(c)
+                        if c == 0:
+                            fg, bg = None, None
+                        elif 30 <= c <= 37 or 90 <= c <= 97:
+                            fg = c
+                        elif c == 39:
+                            fg = None
+                        elif 40 <= c <= 47 or 100 <= c <= 107:
+                            bg = c
+                        elif c == 49:
+                            bg = None
+                    i = j + 1
+                    continue
+            raise RenderError(f"raw ESC in output at offset {i}")
+        if ch in (STRIKE, UNDERPLUS):
+            if not out:
+                raise RenderError("combining mark without a base character")
+            c0, cls0, sep0, bg0 = out[-1]
+            want = "removed" if ch == STRIKE else "inserted"
+            if cls0 not in ("common", want):
+                raise RenderError(f"conflicting change marks on {c0!r}: background says {cls0}, combining mark says {want}")
+            out[-1] = (c0, want, sep0, bg0)
+            i += 1
+            continue
+        if bg in (41, 101):
+            cls = "removed"
+        elif bg in (42, 102):
+            cls = "inserted"
+        else:
+            cls = "common"
+        sep = fg == 36 and bg is None
+        out.append((ch, cls, sep, bg if cls != "common" else None))
+        i += 1
+    return [(c, cls, sep) for c, cls, sep, _ in out]
+
+
+def project(decoded, drop):
+    """Text of one side: drop the characters of class `drop` and the cyan separators."""
+    return "".join(c for c, cls, sep in decoded if cls != drop and not (sep and c in " ->"))
+
+
+def parse_tolerant_json(s):
+    """Structural JSON reader that ignores commas and whitespace ('separator placement aside')."""
+    import json as _json
+    import re
+    tok_re = re.compile(r'\s*(?:(?P<str>"(?:[^"\\]|\\.)*")|(?P<num>-?(?:\d+\.?\d*(?:[eE][+-]?\d+)?|Infinity)|NaN)|'
+                        r'(?P<lit>true|false|null)|(?P<p>[\[\]{}:,]))', re.S)
+    toks = []
+    pos = 0
+    s = s.strip()
+    while pos < len(s):
+        m = tok_re.match(s, pos)
+        if not m or m.end() == pos:
+            if s[pos:].strip() == "":
+                break
+            raise RenderError(f"unreadable text at offset {pos}: {s[pos:pos + 30]!r}")
+        pos = m.end()
+        if m.group("str") is not None:
+            try:
+                toks.append(("v", _json.loads(m.group("str"), strict=False)))
+            except ValueError as ex:
+                raise RenderError(f"bad string literal {m.group('str')[:40]!r}: {ex}")
+        elif m.group("num") is not None:
+            toks.append(("v", _json.loads(m.group("num"))))
+        elif m.group("lit") is not None:
+            toks.append(("v", {"true": True, "false": False, "null": None}[m.group("lit")]))
+        elif m.group("p") != ",":
+            toks.append(("p", m.group("p")))
+    idx = [0]
+
+    def value():
+        if idx[0] >= len(toks):
+            raise RenderError("unexpected end of text")
+        kind, t = toks[idx[0]]
+        idx[0] += 1
+        if kind == "v":
+            return t
+        if t == "[":
+            arr = []
+            while True:
+                if idx[0] >= len(toks):
+                    raise RenderError("unterminated list")
+                if toks[idx[0]] == ("p", "]"):
+                    idx[0] += 1
+                    return arr
+                arr.append(value())
+        if t == "{":
+            obj = {}
+            while True:
+                if idx[0] >= len(toks):
+                    raise RenderError("unterminated mapping")
+                if toks[idx[0]] == ("p", "}"):
+                    idx[0] += 1
+                    return obj
+                k = value()
+                if not isinstance(k, str):
+                    raise RenderError(f"mapping key is not a string: {k!r}")
+                if idx[0] >= len(toks) or toks[idx[0]] != ("p", ":"):
+                    raise RenderError(f"missing ':' after key {k!r}")
+                idx[0] += 1
+                if k in obj:
+                    raise RenderError(f"key {k!r} appears twice")
+                obj[k] = value()
+        raise RenderError(f"unexpected {t!r}")
+    v = value()
+    if idx[0] != len(toks):
+        raise RenderError(f"trailing text after the document: {toks[idx[0]:idx[0] + 3]!r}")
+    return v
